@@ -849,9 +849,9 @@ theorem reportComplete_shape (s : State) (sub : Sub) (keep : Bool) :
   all_goals first | (left; exact ⟨_, _, rfl⟩) | (right; exact ⟨_, _, rfl⟩)
 
 theorem commit_seen (hz : Nat) (c : Ctx) (f : Fin) :
-    let c' := match f with | .retry => c.setKeepRetry hz | _ => c
+    let c' := match f with | .retry => c.setKeepRetry hz | .unsent => c.setKeepUnsent | _ => c
     c'.commit.seenAttr = (match f with | .retry => c.sub.seenAttr | _ => c.nextAttr) := by
-  cases f <;> simp [Ctx.commit, Ctx.setKeepRetry]
+  cases f <;> simp [Ctx.commit, Ctx.setKeepRetry, Ctx.setKeepUnsent]
 
 theorem length_eraseP_find {α} {l : List α} {p : α → Bool} {c : α} (h : l.find? p = some c) :
     (l.eraseP p).length + 1 = l.length := by
@@ -873,15 +873,15 @@ theorem fin_shape {s : State} {id : Nat} {f : Fin} :
   · left; rfl
   · rename_i c hc
     right
-    refine ⟨c, List.mem_of_find?_eq_some hc, (match f with | .retry => c.setKeepRetry s.hz | _ => c).commit, ?_, ?_, length_eraseP_find hc⟩
+    refine ⟨c, List.mem_of_find?_eq_some hc, (match f with | .retry => c.setKeepRetry s.hz | .unsent => c.setKeepUnsent | _ => c).commit, ?_, ?_, length_eraseP_find hc⟩
     rotate_left
     · simp only
       rcases reportComplete_shape ({ s with ctxs := s.ctxs.eraseP (fun c => c.sub.id == id) })
-        ((match f with | .retry => c.setKeepRetry s.hz | _ => c).commit)
+        ((match f with | .retry => c.setKeepRetry s.hz | .unsent => c.setKeepUnsent | _ => c).commit)
         (match f with | .drop => false | _ => true) with ⟨r, cx, h⟩ | ⟨r, cx, h⟩
       · left; exact ⟨r, cx, h⟩
       · right; exact ⟨r, cx, h⟩
-    · cases f <;> simp [Ctx.commit, Ctx.setKeepRetry]
+    · cases f <;> simp [Ctx.commit, Ctx.setKeepRetry, Ctx.setKeepUnsent]
 
 
 
